@@ -47,7 +47,8 @@ structure SplitFacts (A : Mat 𝕜) (q0 q1 : List Int) (u : Mat 𝕜) (s : List 
   sparseU : Sparse u q0 q
   sparseV : Sparse v q q1
 
-/-- case analysis on a successful run: the dummy branch (no shared charge) or the regular branch -/
+/-- case analysis on a successful run: the dummy branch taken for lack of a shared charge (possibly on a matrix
+without rows), or `SplitFacts` (regular branch, or the dummy branch taken for a zero matrix with shared charges) -/
 theorem split_cases (hshape : ∀ B, SvdShapeAt dsvd B)
     (hrun : splitMatrixSvd dsvd dnorm dargsort A q0 q1 tol = .ok (u, s, v, q)) :
     (q0.length = A.m ∧ q1.length = A.n ∧ u = ⟨A.m, 1, fun i _ => if i = 0 then 1 else 0⟩ ∧ s = [0] ∧
